@@ -170,8 +170,8 @@ func init() {
 			}
 			return genSeqCase(r, seqProfile{prop: "C13", steps: [2]int{20, 60}, keys: [2]int{2, 3}, maxTx: 5, txWeight: 65, ctlWeight: 4, late: true, reopen: rp, readback: "all"})
 		}})
-	Register(seqProp{id: "C14",
-		rule: "cases: fault-free histories of autocommit and transactional writes, deletes, commits, failed commits and rollbacks (15-60 steps, contents up to 200 KiB), optional reopen with jobs still queued; then all transactions are ended, the world runs to exact quiescence, one collection pass, quiescence; oracle: the regular files under all roots are in bijection with the keys GetKeys returns and byte-equal to their contents; non-trivial = some key written at least twice",
+	Register(propC14{seqProp{id: "C14",
+		rule: "three quarters of the cases: fault-free sequential histories of autocommit and transactional writes, deletes, commits, failed commits and rollbacks (15-60 steps, contents up to 200 KiB), optional reopen with jobs still queued; then all transactions are ended, the world runs to exact quiescence, one collection pass, quiescence; one quarter: small concurrent programs (the generators of C06 and C07) under seeded schedules, then the same end game; oracle: the regular files under all roots are in bijection with the keys GetKeys returns and byte-equal to their contents; non-trivial = some key written at least twice (sequential) / client operations overlapped (concurrent)",
 		runs: [2]int{4000, 160000},
 		gen: func(r *simrt.Rand, idx int, tier string) SeqCase {
 			rp := 0
@@ -179,7 +179,7 @@ func init() {
 				rp = 4
 			}
 			return genSeqCase(r, seqProfile{prop: "C14", steps: [2]int{15, 60}, keys: [2]int{2, 4}, maxTx: 4, txWeight: 55, ctlWeight: 8, reopen: rp, big: true, readback: "auto", walk: "final", deleteHeavy: r.Intn(2) == 0, overlap: r.Intn(2) == 0})
-		}})
+		}}})
 	Register(seqProp{id: "C17",
 		rule: "cases: 150-600 tiny writes interleaved with deletes, collector runs, drains and reopenings, directory limit at its clamp (config values 0-150 generated), 1-3 roots; after every step a walk of the roots: every regular file at root/<uuid>/<uuid>, a uuid directory per root once a write was attempted, no directory above the limit, a directory that was full and regained room receives a new file within 300 further writes; non-trivial = at least 100 writes (directories rotate)",
 		runs: [2]int{600, 20000},
@@ -221,6 +221,60 @@ func init() {
 			}
 			return c
 		}})
+}
+
+// propC14: three quarters sequential histories, one quarter small concurrent programs (C06's
+// and C07's generators) followed by the same exact-quiescence directory walk.
+type propC14 struct{ seqProp }
+
+type C14Case struct {
+	Seq  *SeqCase  `json:"seq,omitempty"`
+	Conc *ConcCase `json:"conc,omitempty"`
+}
+
+func (p propC14) Gen(r *simrt.Rand, idx int, tier string) any {
+	if idx%4 == 3 {
+		var c ConcCase
+		if idx%8 == 3 {
+			c = genC06(r, idx, tier)
+		} else {
+			c = genC07(r, idx, tier)
+		}
+		c.Prop, c.Walk = "C14", true
+		return C14Case{Conc: &c}
+	}
+	c := p.seqProp.gen(r, idx, tier)
+	return C14Case{Seq: &c}
+}
+func (p propC14) Decode(b json.RawMessage) (any, error) {
+	var c C14Case
+	err := json.Unmarshal(b, &c)
+	return c, err
+}
+func (p propC14) Exec(x any, choices []int32) RunOut {
+	c := x.(C14Case)
+	if c.Seq != nil {
+		return seqExec(*c.Seq, choices)
+	}
+	out, cr := concExec(*c.Conc, choices)
+	out.NonTrivial = cr.overlaps() > 0
+	return out
+}
+func (p propC14) Shrink(x any) []any {
+	c := x.(C14Case)
+	var out []any
+	if c.Seq != nil {
+		for _, s := range p.seqProp.Shrink(*c.Seq) {
+			sc := s.(SeqCase)
+			out = append(out, C14Case{Seq: &sc})
+		}
+		return out
+	}
+	for _, d := range concShrink(*c.Conc) {
+		d := d
+		out = append(out, C14Case{Conc: &d})
+	}
+	return out
 }
 
 // walkShape is C17's oracle, evaluated after every step.
